@@ -202,6 +202,7 @@ class Exec:
         self.ghosts = {}
         self.nfresh = 0
         self.lemmas_used = []
+        self.unsupported = []
         self._prune_solver = None
 
     # -- helpers ------------------------------------------------------------
@@ -401,7 +402,23 @@ class Exec:
         m = getattr(self, "stmt_" + type(node).__name__, None)
         if m is None:
             raise Unsupported(f"statement {type(node).__name__} at line {node.lineno}")
-        yield from m(node, st)
+        if isinstance(node, (ast.If, ast.For, ast.While, ast.Try, ast.FunctionDef)):
+            yield from m(node, st)
+            return
+        # a simple statement outside the subset is acceptable only where it is provably
+        # unreachable under this specialisation's precondition: that becomes an obligation
+        snapshot = st.copy()
+        try:
+            outs = list(m(node, st))
+        except Unsupported as e:
+            self.unsupported.append((node.lineno, str(e)))
+            self.oblige(snapshot, "unreachable", f"unsupported@{self.rel_line(node)}", z3.BoolVal(False), node.lineno,
+                        note=f"construct outside the subset must be unreachable here: {e}")
+            return
+        yield from outs
+
+    def rel_line(self, node):
+        return node.lineno - self.unit.fn.lineno
 
     def stmt_Pass(self, node, st):
         yield ("fall", st, None)
@@ -686,6 +703,11 @@ class Exec:
                 self.ctx.defs.append(m.f[k] == z3.If(c, a.f[k], b.f[k]), (m.f[k],))
             return m
         if isinstance(a, TupV):
+            if len(a.items) != len(b.items) and a.kind == b.kind:
+                try:
+                    return self.seq_ite(c, self.to_seq(a), self.to_seq(b), a.kind)
+                except Unsupported:
+                    return None
             if len(a.items) != len(b.items) or a.kind != b.kind:
                 return None
             items = []
